@@ -7293,6 +7293,8 @@ tsk_table_collection_individual_topological_sort(
     tsk_id_t *traversal_order = tsk_malloc(num_individuals * sizeof(*traversal_order));
     tsk_id_t *new_id_map = tsk_malloc(num_individuals * sizeof(*new_id_map));
 
+    /* copy is freed at out: also when we fail before it is initialised */
+    tsk_memset(&copy, 0, sizeof(copy));
     if (new_id_map == NULL || traversal_order == NULL) {
         ret = tsk_trace_error(TSK_ERR_NO_MEMORY);
         goto out;
@@ -7370,6 +7372,8 @@ tsk_table_sorter_sort_individuals_canonical(tsk_table_sorter_t *self)
     tsk_size_t *num_descendants = tsk_malloc(num_individuals * sizeof(*num_descendants));
     tsk_id_t *traversal_order = tsk_malloc(num_individuals * sizeof(*traversal_order));
 
+    /* copy is freed at out: also when we fail before it is initialised */
+    tsk_memset(&copy, 0, sizeof(copy));
     if (individual_id_map == NULL || sorted_individuals == NULL
         || traversal_order == NULL || num_descendants == NULL) {
         ret = tsk_trace_error(TSK_ERR_NO_MEMORY);
